@@ -140,7 +140,8 @@ theorem loadLine_no_symend (off : Nat) (st : LdSt) (line : List Char)
   unfold loadLine
   split
   · exact h
-  · split
+  · unfold loadFields
+    split
     · exact renameLast_no_symend _ _ h
     · split
       · exact h
